@@ -3,6 +3,7 @@ from __future__ import annotations
 
 import ast
 
+from ..canon import cdump
 from ..census import census, snapshot_blocks
 from ..families import as_named, make_scfg
 from ..kernel import guarded, shard_map
@@ -25,6 +26,25 @@ def programs(tier: str):
     return out
 
 
+def regenerate_again(scfg, original, before, fdef, report, acc=None, recensus=None):
+    """History on one GRAPH: code generation must leave the graph as it found it, and regenerating from the same graph a
+    second time must give the same function (the census below is about the first result)."""
+    from numba_scfg.core.datastructures.ast_transforms import SCFG2ASTTransformer
+    text1 = ast.unparse(fdef)
+    if cdump(scfg) != before and acc is not None:
+        acc.counters["info:codegen_alters_its_input_graph"] += 1      # not a clause of C10 by itself; its consequences are
+    try:
+        fdef2 = guarded(SCFG2ASTTransformer().transform, original=original, scfg=scfg)
+        text2 = ast.unparse(fdef2)
+        compile(text2, "<regenerated twice>", "exec")
+    except Exception as e:  # noqa: BLE001
+        report("second-regeneration-fails", f"regenerating from the same graph a second time fails: {type(e).__name__}: {str(e)[:120]}")
+        return
+    if text2 != text1 and recensus is not None:
+        # a different text is acceptable only if it is a correct regeneration in its own right
+        recensus(fdef2)
+
+
 def check_program(label, src, acc: Acc):
     from numba_scfg.core.datastructures.ast_transforms import AST2SCFGTransformer, SCFG2ASTTransformer
     seen = set()
@@ -40,7 +60,10 @@ def check_program(label, src, acc: Acc):
         scfg = AST2SCFGTransformer(tree).transform_to_SCFG()
         snap = snapshot_blocks(scfg)
         guarded(scfg.restructure)
+        before = cdump(scfg)
         fdef = guarded(SCFG2ASTTransformer().transform, original=tree[0], scfg=scfg)
+        regenerate_again(scfg, tree[0], before, fdef, report, acc,
+                         lambda f2: census(snap, scfg, f2, orig_names, lambda c, d: report("second-regeneration/" + c, d)))
     except NotImplementedError:
         acc.counters["programs_refused"] += 1
         return
@@ -76,7 +99,10 @@ def check_graph(g, fam, acc: Acc, opts):
             seen.add(clause)
             acc.viol(PROP, f"{PROP}/{clause}", detail, (g, payload), site=payload, case=graph_case(g, fam, "JLB", payload=payload, kind="graph"))
         try:
+            before = cdump(scfg)
             fdef = guarded(SCFG2ASTTransformer().transform, original=orig, scfg=scfg)
+            regenerate_again(scfg, orig, before, fdef, report, acc,
+                             lambda f2: census(snap, scfg, f2, {"c", "t"}, lambda c, d: report("second-regeneration/" + c, d)))
         except NotImplementedError:
             acc.counters[f"graphs_refused[{payload}]"] += 1
             continue
